@@ -17,7 +17,7 @@ from sim.driver import Report
 PROP = "C12"
 TIERS = {"quick": {"pairs": 100, "envs": 7, "budget": 70.0}, "thorough": {"pairs": 1200, "envs": 12, "budget": 1500.0}}
 SCRATCH = "/dev/shm" if os.path.isdir("/dev/shm") else tempfile.gettempdir()
-E0 = {"route": "api", "heap": 0, "dir_seed": 0, "clock": "2001-02-03T04:05:06", "history": [], "cache": 0, "repeat": 1, "history_same_package": 0}
+E0 = {"route": "api", "heap": 0, "dir_seed": 0, "clock": "2001-02-03T04:05:06", "history": [], "cache": 0, "repeat": 1, "history_same_package": 0, "environ": None}
 ROUTES = ["api", "api_file", "cli_flags", "cli_config", "cli_mixed"]
 
 
@@ -84,6 +84,8 @@ def gen_params(rng):
             adv["substitutions"] = rng.sample([["class", "(.*)Type$", "\\1Kind"], ["field", "^name$", "title"], ["class", "^Item$", "Entry"], ["package", "urn:cyc:a", "alpha_ns"], ["module", "^b$", "bee"]], rng.choice([1, 2]))
         if adv:
             p["adv"] = adv
+    if rng.random() < 0.12:
+        p["create"] = True  # start from GeneratorConfig.create() / `xsdata init-config` (stock substitutions)
     return p
 
 
@@ -108,6 +110,15 @@ def gen_env(rng, srcs):
         env["repeat"] = rng.choice([1, 2])
     elif rng.random() < 0.15:
         env["repeat"] = 2
+    if rng.random() < 0.3:
+        env["environ"] = {
+            "COLUMNS": rng.choice(["40", "80", "200"]),
+            "LC_ALL": rng.choice(["C", "C.UTF-8", "POSIX"]),
+            "TZ": rng.choice(["UTC", "Pacific/Kiritimati", "America/Anchorage", "Asia/Kathmandu"]),
+            "USER": rng.choice(["verif", "someone-else"]),
+            "HOME": rng.choice(["/nonexistent", "/tmp"]),
+            "XSDATA_ANYTHING": rng.choice(["0", "1"]),
+        }
     if env.get("history") and rng.random() < 0.3:
         env["history_same_package"] = 1  # an earlier generation into the same package name from another directory
     return env
@@ -135,6 +146,10 @@ def run_child(source, recursive, params, env, timeout=600.0):
         spec = {"repo": core.REPO, "verif": core.VERIF, "source": source, "recursive": recursive, "params": params, "env": env, "workdir": work}
         penv = {k: v for k, v in os.environ.items() if not k.startswith("VERIF_PINNED")}
         penv["PYTHONHASHSEED"] = str(env.get("hashseed", 0))
+        for key in ("COLUMNS", "LINES", "LC_ALL", "LANG", "TZ", "USER", "LOGNAME", "HOME", "TERM", "NO_COLOR"):
+            penv.pop(key, None)
+        penv.update({"LC_ALL": "C.UTF-8", "TZ": "UTC", "COLUMNS": "80", "USER": "verif", "HOME": "/nonexistent"})
+        penv.update(env.get("environ") or {})
         penv["PYTHONDONTWRITEBYTECODE"] = "1"
         cmd = [sys.executable, os.path.join(core.VERIF, "sim", "c12_child.py")]
         setarch = shutil.which("setarch")
@@ -199,7 +214,7 @@ def minimize_env(source, recursive, params, env, ref, sigkind):
     """Reset environment components to E0 one at a time while the difference persists."""
     best = dict(env)
     trials = 0
-    for key in ("history_same_package", "history", "cache", "repeat", "dir_seed", "heap", "route", "clock", "hashseed"):
+    for key in ("environ", "history_same_package", "history", "cache", "repeat", "dir_seed", "heap", "route", "clock", "hashseed"):
         default = E0.get(key, 0)
         if best.get(key, default) == default:
             continue
